@@ -311,4 +311,168 @@ theorem bare_delivers (hrel : EnvRel TPx sets X.env X.se) (hi : i ≤ X.se.n) {t
 
 end anchors
 
+
+/-! ## single characters -/
+
+/-- the character test the interpreter builds from operand `x` of a One (`sel` = 0) / Notone (1) / Set (2) family
+    instruction is the specification's predicate `P` -/
+def PredOk (X : Setup) (sel : Nat) (x : Int) (P : Spec.Pred) : Prop :=
+  ∃ pred, VM.charPred X.p X.env sel x = .ok pred ∧ ∀ r, pred r = P.test X.se r
+
+theorem predOk_one (X : Setup) (ch : Int) (h : 0 ≤ ch) : PredOk X 0 ch (.one ch.toNat false) := by
+  refine ⟨_, rfl, ?_⟩
+  intro r
+  simp only [VM.isCh, Spec.Pred.test, Bool.false_eq_true, if_false]
+  rw [Bool.eq_iff_iff]; simp; omega
+
+theorem predOk_notone (X : Setup) (ch : Int) (h : 0 ≤ ch) : PredOk X 1 ch (.notone ch.toNat false) := by
+  refine ⟨_, rfl, ?_⟩
+  intro r
+  simp only [VM.isCh, Spec.Pred.test, Bool.false_eq_true, if_false]
+  rw [Bool.eq_iff_iff]; simp; omega
+
+theorem predOk_set {X : Setup} {TPx : TP} {sets : List (List Nat)} (hrel : EnvRel TPx sets X.env X.se)
+    (hn : X.p.nsets = sets.length) {k : Nat} {pl : List Nat} {cls : Spec.Cls} (hk : sets[k]? = some pl)
+    (hc : TPx.rd pl = some cls) : PredOk X 2 (k : Int) (.set cls false) := by
+  have hlt : k < sets.length := (List.getElem?_eq_some_iff.1 hk).1
+  refine ⟨X.env.setMem k, ?_, ?_⟩
+  · have hk' : k < X.p.nsets := by rw [hn]; exact hlt
+    simp [VM.charPred, VM.setPred, hk']
+  · intro r; simp only [Spec.Pred.test]; exact hrel.sets k pl cls hk hc r
+
+section chars
+variable {X : Setup} {TPx : TP} {sets : List (List Nat)} {a i : Nat} {T S : List Int} {C : List (Nat × Nat × Nat)}
+  {s : VMState}
+
+theorem caseChar_delivers (hrel : EnvRel TPx sets X.env X.se) (hi : i ≤ X.se.n) (he : Entry X a i T S C s)
+    {sel : Nat} {x : Int} {P : Spec.Pred} {ins : Instr} (hia : InstrAt X.p a ins) (hx : ins.args[0]? = some x)
+    (hbody : VM.body X.p X.env s = VM.caseChar X.p X.env sel s) (hrtl : s.oper.rtl = false)
+    (hpred : PredOk X sel x P) (hf : ∃ w, VM.fetch X.p (a + 2) = .ok w) :
+    Delivers X (a + 2) T S S C (Spec.m X.se (.chr P) false ⟨i, C⟩) s := by
+  obtain ⟨pred, hcp, hpr⟩ := hpred
+  have hop := hia.operand he.pc 0 x hx
+  by_cases hlt : i < X.se.n
+  · obtain ⟨c, hc, hch⟩ := charAt_lt hrel i hlt
+    have hfc : ¬ (VM.forwardchars X.env s < 1) := by
+      simp only [VM.forwardchars, hrtl, Bool.false_eq_true, if_false, env_len hrel, he.tp]; omega
+    have hfn : VM.forwardcharnext X.env false (i : Int) = .ok (c, (i : Int) + 1) := by
+      simp [VM.forwardcharnext, hch, Except.map]
+    have hm : Spec.m X.se (.chr P) false ⟨i, C⟩ = if P.test X.se c then [⟨i + 1, C⟩] else [] := by
+      simp [Spec.m, Spec.stepChar, hc]
+    rw [hm, ← hpr c]
+    by_cases hpc : pred c = true
+    · have hb : VM.body X.p X.env s = .ok (VM.textto s ((i : Int) + 1), .advance 1) := by
+        rw [hbody]; unfold VM.caseChar
+        simp only [hfc, if_false, bind, Except.bind, hop, hcp, hrtl, he.tp, hfn, hpc, if_true, pure, Except.pure]
+      rw [if_pos hpc]
+      exact deliver_one (k := 1) he hb rfl rfl rfl rfl (by simp [VM.textto]) hf
+    · have hb : VM.body X.p X.env s = .ok (VM.textto s ((i : Int) + 1), .back) := by
+        rw [hbody]; unfold VM.caseChar
+        simp only [hfc, if_false, bind, Except.bind, hop, hcp, hrtl, he.tp, hfn, hpc, pure, Except.pure]
+        simp
+      rw [if_neg hpc]
+      exact deliver_none he hb rfl rfl rfl
+  · have hfc : VM.forwardchars X.env s < 1 := by
+      simp only [VM.forwardchars, hrtl, Bool.false_eq_true, if_false, env_len hrel, he.tp]; omega
+    have hb : VM.body X.p X.env s = .ok (s, .back) := by
+      rw [hbody]; unfold VM.caseChar; simp only [hfc, if_true]
+    have hn : X.se.text[i]? = none := by
+      have : X.se.text.length ≤ i := by unfold Spec.Env.n at *; omega
+      simp [this]
+    have hm : Spec.m X.se (.chr P) false ⟨i, C⟩ = [] := by simp [Spec.m, Spec.stepChar, hn]
+    rw [hm]
+    exact deliver_none he hb rfl rfl rfl
+
+end chars
+
+/-! ## control instructions -/
+
+section control
+variable {X : Setup} {a i : Nat} {T S : List Int} {C : List (Nat × Nat × Nat)} {s : VMState}
+
+theorem goto_leads (he : Entry X a i T S C s) {t : Nat} (hia : InstrAt X.p a (i1 opGoto (t : Int)))
+    (hf : ∃ w, VM.fetch X.p t = .ok w) : Leads X s (Entry X t i T S C) := by
+  obtain ⟨w, hw⟩ := hf
+  have hoper : s.oper = ⟨opGoto, false, false, false, false⟩ := by rw [he.oper hia]; exact decode_plain opGoto (by decide)
+  have hop : Op.ofNat? s.oper.op = some .goto := by rw [hoper]; rfl
+  have hb : s.oper.back = false := by rw [hoper]
+  have hb2 : s.oper.back2 = false := by rw [hoper]
+  have hbody : VM.body X.p X.env s = .ok (s, .goto (t : Int)) := by
+    simp only [body, hop, modeOf, hb, hb2, caseGoto, hia.operand he.pc 0 (t : Int) rfl, Except.map]
+  exact Leads.of_step (step_goto hbody hw) (Leads.here ⟨rfl, hw, he.tp, he.tr, he.st, he.cap⟩)
+
+theorem lazybranch_leads (he : Entry X a i T S C s) {t : Int} (hia : InstrAt X.p a (i1 opLazybranch t))
+    (hf : ∃ w, VM.fetch X.p (a + 2) = .ok w) :
+    Leads X s (Entry X (a + 2) i ((a : Int) :: (i : Int) :: T) S C) := by
+  obtain ⟨w, hw⟩ := hf
+  have hoper : s.oper = ⟨opLazybranch, false, false, false, false⟩ := by
+    rw [he.oper hia]; exact decode_plain opLazybranch (by decide)
+  have hop : Op.ofNat? s.oper.op = some .lazybranch := by rw [hoper]; rfl
+  have hb : s.oper.back = false := by rw [hoper]
+  have hb2 : s.oper.back2 = false := by rw [hoper]
+  have hbody : VM.body X.p X.env s = .ok (VM.push1 s s.textpos, .advance 1) := by
+    simp only [body, hop, modeOf, hb, hb2]
+  refine Leads.of_step (step_adv hbody (by simp only [VM.push1, he.pc]; exact hw)) (Leads.here ?_)
+  exact ⟨by simp [VM.push1, he.pc], hw, by simp [VM.push1, he.tp], by simp [VM.push1, he.pc, he.tp, he.tr],
+    by simp [VM.push1, he.st], by simp only [VM.push1]; exact he.cap⟩
+
+theorem lazybranch_frame {t : Int} (hia : InstrAt X.p a (i1 opLazybranch t)) (v : Int) :
+    Framed X.p [(a : Int), v] := by
+  refine Framed.one _ [v] ?_
+  simp [VM.frameSize, savedPos_pos, hia.fetch]
+  decide
+
+theorem lazybranch_back (hfail : FailAt X ((a : Int) :: (i : Int) :: T) S C s) {t : Nat}
+    (hia : InstrAt X.p a (i1 opLazybranch (t : Int))) (hf : ∃ w, VM.fetch X.p t = .ok w) :
+    Leads X s (Entry X t i T S C) := by
+  obtain ⟨w, hw⟩ := hf
+  obtain ⟨s2, chk, hst, hbe⟩ := fail_step hfail hia.fetch
+  refine Leads.of_step hst ?_
+  have hoper : s2.oper = ⟨opLazybranch, false, true, false, false⟩ := by
+    have : decode (i1 opLazybranch (t : Int)).op = ⟨opLazybranch, false, false, false, false⟩ :=
+      decode_plain opLazybranch (by decide)
+    rw [hbe.op, this]
+  have hop : Op.ofNat? s2.oper.op = some .lazybranch := by rw [hoper]; rfl
+  have hb : s2.oper.back = true := by rw [hoper]
+  have hb2 : s2.oper.back2 = false := by rw [hoper]
+  have hbody : VM.body X.p X.env s2 = .ok (VM.textto { s2 with track := T } (i : Int), .goto (t : Int)) := by
+    simp only [body, hop, modeOf, hb, hb2, caseLazybranchBack, hbe.tr, hia.operand hbe.pc 0 (t : Int) rfl, Except.map]
+  exact Leads.of_step (step_goto hbody hw) (Leads.here ⟨rfl, hw, rfl, rfl, hbe.st, hbe.cap⟩)
+
+theorem setmark_leads (he : Entry X a i T S C s) (hia : InstrAt X.p a (i0 opSetmark))
+    (hf : ∃ w, VM.fetch X.p (a + 1) = .ok w) :
+    Leads X s (Entry X (a + 1) i ((a : Int) :: T) ((i : Int) :: S) C) := by
+  obtain ⟨w, hw⟩ := hf
+  have hoper : s.oper = ⟨opSetmark, false, false, false, false⟩ := by
+    rw [he.oper hia]; exact decode_plain opSetmark (by decide)
+  have hop : Op.ofNat? s.oper.op = some .setmark := by rw [hoper]; rfl
+  have hb : s.oper.back = false := by rw [hoper]
+  have hb2 : s.oper.back2 = false := by rw [hoper]
+  have hbody : VM.body X.p X.env s = .ok (VM.push0 (VM.spush s s.textpos), .advance 0) := by
+    simp only [body, hop, modeOf, hb, hb2]
+  refine Leads.of_step (step_adv hbody (by simp only [VM.push0, VM.spush, he.pc]; exact hw)) (Leads.here ?_)
+  exact ⟨by simp [VM.push0, VM.spush, he.pc], hw, by simp [VM.push0, VM.spush, he.tp],
+    by simp [VM.push0, VM.spush, he.pc, he.tr], by simp [VM.push0, VM.spush, he.st, he.tp],
+    by simp only [VM.push0, VM.spush]; exact he.cap⟩
+
+theorem setmark_frame (hia : InstrAt X.p a (i0 opSetmark)) : Framed X.p [(a : Int)] := by
+  refine Framed.one _ [] ?_
+  simp [VM.frameSize, savedPos_pos, hia.fetch]
+  decide
+
+theorem setmark_back {v : Int} (hfail : FailAt X ((a : Int) :: T) (v :: S) C s) (hia : InstrAt X.p a (i0 opSetmark)) :
+    Leads X s (FailAt X T S C) := by
+  obtain ⟨s2, chk, hst, hbe⟩ := fail_step hfail hia.fetch
+  refine Leads.of_step hst (Leads.here ?_)
+  have hoper : s2.oper = ⟨opSetmark, false, true, false, false⟩ := by
+    have : decode (i0 opSetmark).op = ⟨opSetmark, false, false, false, false⟩ := decode_plain opSetmark (by decide)
+    rw [hbe.op, this]
+  have hop : Op.ofNat? s2.oper.op = some .setmark := by rw [hoper]; rfl
+  have hb : s2.oper.back = true := by rw [hoper]
+  have hb2 : s2.oper.back2 = false := by rw [hoper]
+  refine ⟨{ s2 with stack := S }, ?_, hbe.tr, rfl, hbe.cap⟩
+  simp only [body, hop, modeOf, hb, hb2, casePop1Back, hbe.st]
+
+end control
+
 end RegexVerif.Compile
